@@ -53,7 +53,7 @@ REQUIRED_HITS = [
     'M2.set_view', 'M2.decoded_view', 'M2.wire_view',
     'M2.kind.stream', 'M2.kind.channel', 'M2.kind.repost', 'M2.kind.collection',
     'M2.support_checked', 'M2.purchase_checked', 'M2.fee.LBC', 'M2.fee.BTC', 'M2.fee.USD',
-    'M3.fixture_checked', 'M3.generated_json_checked', 'M3.generated_v1_checked',
+    'M3.fixture_checked', 'M3.generated_json_checked', 'M3.generated_v1_checked', 'M3.generated_zero_fee',
     'M4.valid_checked', 'M4.canonical_roundtrip', 'M4.fixed_point',
     'M5.invalid_checked', 'M5.insert_end_checked', 'M5.malformed_modifier_checked',
 ]
@@ -1617,7 +1617,13 @@ def run_legacy_fixed(rec):
 MIMES = ['video/mp4', 'application/octet-stream', 'audio/mpeg', 'image/png', 'application/x-msdownload', 'text/plain', 'application/x-zip-compressed']
 
 
+_ZERO_FEE = [0]
+
+
 def gen_legacy_amount(r, cur):
+    if r.random() < 0.08:
+        _ZERO_FEE[0] += 1
+        return r.choice([0, 0.0])      # free content published with an explicit zero fee record (seeded break C16-F)
     if cur == 'USD':
         return r.choice([1, 2, 5, 10, 100, 0.5, 0.25, 1.75, 99.5, 12345])
     return r.choice([1, 2, 10, 15, 100, 21000000, 0.5, 0.25, 0.125, 1.5, 1234.75, 0.0078125])
@@ -1700,6 +1706,9 @@ def judge_legacy_v1(rec, sub):
         expect = legacy_v1_expect(data)
     rec.case(data)
     rec.hit('M3.generated_v1_checked')
+    if _ZERO_FEE[0]:
+        rec.hit('M3.generated_zero_fee', _ZERO_FEE[0])
+        _ZERO_FEE[0] = 0
     judge_legacy(rec, 'generated-v1', data, expect, lit, 'v1')
 
 
